@@ -22,7 +22,7 @@ theorem getOrLoadLatestSK_wp {ρ : RevCtx} {x : Ctx} {t : Int} {s0 : List Row}
     x.pol.revokeInterval x.pol.expireAfter w h)
   intro r w' ⟨h1, hms, hk⟩
   refine ⟨h1, hms, fun k hr => ?_⟩
-  rcases hk k hr with ⟨hh, hw, hvalid⟩ | hres
+  rcases hk.1 k hr with ⟨hh, hw, hvalid⟩ | hres
   · obtain ⟨hkid, -, ko, hko, hc, hrv, ko', hko', hcm, ⟨r0, hr0, hrk, hrc⟩, hout⟩ := hit_out h hh hw.cw
     rw [hko] at hko'; cases hko'
     unfold isKeyInvalid at hvalid
